@@ -386,9 +386,12 @@ def run_shard(shard, tier, acc):
                 acc.violation(sig, case, d)
     elif kind == 'shipped-eager':
         _, sub, k = shard
-        for sub_, alias, wl, idx in shipped_lists():
-            if sub_ != sub or len(wl[0]) > 8:
-                continue
+        # as demux.py: first a parser over the whole barcodes/ directory, then one over indices/, in ONE process; the two
+        # directories ship a same-named list (illumina_RP_indices) with different content
+        plan = [(s_, a, w, i) for s_, a, w, i in shipped_lists() if s_ == 'barcodes' and len(w[0]) <= 6]
+        plan += [(s_, a, w, i) for s_, a, w, i in shipped_lists() if s_ == sub and len(w[0]) <= 8]
+        for sub_, alias, wl, idx in plan:
+            sub = sub_
             L = len(wl[0])
             case = {'kind': 'shipped', 'dir': sub, 'alias': alias, 'k': k, 'lo': 0, 'hi': 5 ** L, 'eager_dir': True}
             viols, (nq, ncorr, ntie) = check_shipped(case)
